@@ -279,6 +279,16 @@ def _install():
     _reg("publish", "any", lambda c: A(c.cb(lambda shared: shared)))
     _reg("replay", "any", lambda c: A(c.rnd.choice([None, 1, 2]), None, mapper=c.cb(lambda shared: shared)))
     _reg("publish_value", "any", lambda c: A(0, c.cb(lambda shared: shared)))
+    # ---- the same operators with None where a value / seed / default is expected (None is an ordinary value: C08, C39)
+    _reg("reduce_seed_none", "any", lambda c: A(c.cb(lambda a, b: (a, b)), None), real="reduce")
+    _reg("scan_seed_none", "any", lambda c: A(c.cb(lambda a, b: (a, b)), None), real="scan")
+    _reg("default_if_empty_none", "any", lambda c: A(None), real="default_if_empty")
+    _reg("first_or_default_none", "any", lambda c: A(pred(c), None), real="first_or_default")
+    _reg("last_or_default_none", "any", lambda c: A(None, pred(c)), real="last_or_default")
+    _reg("single_or_default_none", "any", lambda c: A(pred(c), None), real="single_or_default")
+    _reg("element_at_or_default_none", "any", lambda c: A(c.rnd.randint(0, 3), None), real="element_at_or_default")
+    _reg("start_with_none", "any", lambda c: A(None, 0, ""), real="start_with")
+    _reg("contains_none", "any", lambda c: A(None), real="contains")
     # ---- schedulers
     _reg("observe_on", "any", lambda c: A(c.s), "time")
     _reg("subscribe_on", "any", lambda c: A(c.s), "time")
